@@ -1463,7 +1463,19 @@ func posSources(w *World, lf *LexFacts, info *types.Info, loop *ast.ForStmt, arm
 				wrong := ""
 				for _, c := range counted {
 					// the source from some earlier position up to the current one ends where the lexeme ends
-					if se, ok := c.(*ast.SliceExpr); ok && se.High != nil && objOf(se.High) == advVar && advVar != nil {
+					rc := c
+					for d := 0; d < 4; d++ {
+						id, ok := rc.(*ast.Ident)
+						if !ok {
+							break
+						}
+						o := objOf(id)
+						if o == nil || len(defs[o]) != 1 || defs[o][0].rhs == nil {
+							break
+						}
+						rc = defs[o][0].rhs
+					}
+					if se, ok := rc.(*ast.SliceExpr); ok && se.High != nil && objOf(se.High) == advVar && advVar != nil {
 						continue
 					}
 					if canon(c, 0) != advancedBy[0] {
